@@ -67,12 +67,12 @@ def K(N0, MaxN, NIter, MaxObj, WMax, ops, Cols=0, ViewDepth=1, ViewT=0, BMode=0)
 PLAN = {
     "quick": dict(
         # exhaustive, one replay case per transition
-        emit=[("all1", K(3, 3, 1, 1, 1, ALL)), ("it2", K(3, 3, 2, 1, 1, ITER)),
-              ("share2", K(2, 2, 1, 2, 1, [o for o in SHARE if o != "permute"])),
+        emit=[("all1", K(3, 3, 1, 1, 1, ALL)), ("it2", K(3, 3, 2, 1, 1, [o for o in ITER if o not in ("sort", "from")])),
+              ("share2", K(2, 2, 1, 2, 1, [o for o in SHARE if o not in ("permute", "vaddv", "vsubself")])),
               ("view4", K(4, 4, 1, 1, 1, ["write", "reset", "swap", "walk", "vwalk"], Cols=2)),
               ("nest4", K(4, 4, 1, 1, 1, [o for o in NEST if o != "swap"], Cols=2, ViewDepth=2, ViewT=1)),
-              ("empty0", K(0, 0, 1, 1, 1, EMPTY)), ("bulk4", K(4, 4, 1, 1, 1, BULK, Cols=2)),
-              ("deriv3", K(3, 3, 1, 1, 1, [o for o in DERIV if o not in ("append", "reverse")])),
+              ("empty0", K(0, 0, 1, 1, 1, EMPTY)), ("bulk4", K(4, 4, 1, 1, 1, BULK, Cols=2, BMode=2)),
+              ("deriv3", K(3, 3, 1, 1, 1, [o for o in DERIV if o not in ("append", "reverse", "slice")])),
               ("derivm2", K(2, 2, 1, 1, 1, DERIVM, Cols=2)),
               ("app2a", K(1, 3, 1, 2, 1, APPEND2)), ("app2d", K(2, 3, 1, 2, 1, APPEND2L))],
         dense=["all1"],
